@@ -159,6 +159,8 @@ def _keep_alive(fr1, b1, cl_extra, fr2, b2, cuts, conn_hdr, http10):
     def msg(fr, body, extra, ch):
         ver = b'HTTP/1.0' if http10 else b'HTTP/1.1'
         c = [b'', b'Connection: close\r\n', b'Connection: keep-alive\r\n'][ch]
+        if fr == 2:
+            return ver + b' 304 Not Modified\r\n' + c + b'\r\n'          # no body, no length headers
         if fr == 0:
             return ver + b' 200 OK\r\n' + c + b'Content-Length: ' + str(len(body)).encode() + b'\r\n\r\n' + body + b'!' * extra
         return ver + b' 200 OK\r\n' + c + b'Transfer-Encoding: chunked\r\n\r\n' + (('%x' % len(body)).encode() + b'\r\n' + body + b'\r\n' if body else b'') + b'0\r\n\r\n'
@@ -174,7 +176,7 @@ def _keep_alive(fr1, b1, cl_extra, fr2, b2, cuts, conn_hdr, http10):
     out1 = Sink()
     resp = run(st.read_response())
     run(st.read_body(req, resp, file=out1))
-    if out1.value() != b1:
+    if out1.value() != (b'' if fr1 == 2 else b1):
         return False
     must_close = should_close(req.version, resp.fields.get('Connection'))
     ref_close = (conn_hdr != 2) if http10 else (conn_hdr == 1)
@@ -197,6 +199,62 @@ def _keep_alive(fr1, b1, cl_extra, fr2, b2, cuts, conn_hdr, http10):
     run(st.read_body(req, resp2, file=out2))
     hit('second')
     return resp2.status_code == 200 and out2.value() == b2 and conn.pos == len(m1) + len(m2)
+
+
+# ---------------------------------------------------------------- --ignore-length
+def _ignore_length(framing, body, cl, cuts):
+    """Stream(ignore_length=True): only Content-Length is ignored; chunked stays chunked and no-body stays no-body."""
+    body = fixlen(body, 3)
+    conn_hdr = b'Connection: close\r\n'
+    if framing == 0:
+        wire = b'HTTP/1.1 200 OK\r\n' + conn_hdr + b'Content-Length: ' + str(cl).encode() + b'\r\n\r\n' + body
+        want = body                                   # the (wrong) length is ignored: everything up to the close
+    elif framing == 1:
+        wire = b'HTTP/1.1 200 OK\r\n' + conn_hdr + b'Transfer-Encoding: chunked\r\n\r\n' + \
+            (('%x' % len(body)).encode() + b'\r\n' + body + b'\r\n' if body else b'') + b'0\r\n\r\n'
+        want = body
+    else:
+        wire = b'HTTP/1.1 304 Not Modified\r\n' + conn_hdr + b'\r\n'
+        want = b''
+    conn = FakeConnection(wire, cuts)
+    st = Stream(conn, keep_alive=False, ignore_length=True)
+    req = Request('http://h.example/')
+    out = Sink()
+    resp = run(st.read_response())
+    run(st.read_body(req, resp, file=out))
+    hit('f%d' % framing)
+    return out.value() == want and conn.closed()
+
+
+# ---------------------------------------------------------------- coding state does not leak between exchanges
+def _coded_then_plain(kind_i, p1, fr2, b2, cuts):
+    """A content-coded response followed by an identity response on the same Stream: the second body is delivered verbatim."""
+    kind = pick(['gzip', 'zlib', 'raw'], kind_i)
+    p1, b2 = fixlen(p1, 2), fixlen(b2, 3)
+    D.zlib = zmodel
+    enc = zmodel.encode(kind, [p1])
+    ce = b'gzip' if kind == 'gzip' else b'deflate'
+    m1 = b'HTTP/1.1 200 OK\r\nContent-Encoding: ' + ce + b'\r\nContent-Length: ' + str(len(enc)).encode() + b'\r\n\r\n' + enc
+    if fr2 == 0:
+        m2 = b'HTTP/1.1 200 OK\r\nContent-Length: ' + str(len(b2)).encode() + b'\r\n\r\n' + b2
+    else:
+        m2 = b'HTTP/1.1 200 OK\r\nTransfer-Encoding: chunked\r\n\r\n' + (('%x' % len(b2)).encode() + b'\r\n' + b2 + b'\r\n' if b2 else b'') + b'0\r\n\r\n'
+    conn = FakeConnection(m1, cuts)
+    st = Stream(conn, keep_alive=True)
+    req = Request('http://h.example/')
+    out1, out2 = Sink(), Sink()
+    try:
+        resp = run(st.read_response())
+        run(st.read_body(req, resp, file=out1))
+        if out1.value() != p1 or conn.closed() or conn.pos != len(m1):
+            return False
+        conn.data = conn.data + m2
+        resp2 = run(st.read_response())
+        run(st.read_body(req, resp2, file=out2))
+    except zmodel.OutOfModel:
+        return True
+    hit('second-plain')
+    return out2.value() == b2 and conn.pos == len(m1) + len(m2)
 
 
 # ---------------------------------------------------------------- content coding removed
@@ -272,16 +330,33 @@ HARNESSES = [
       funcs=['wpull/protocol/http/stream.py:is_no_body'],
       doc='HEAD / 1xx / 204 / 304 with Content-Length: no body is read and the next response stays unread (expected to fail: D11)'),
     H('keep_alive', '_keep_alive', 'fr1: int, b1: bytes, cl_extra: int, fr2: int, b2: bytes, ' + _CUTS + ', conn_hdr: int, http10: bool',
-      pre={'quick': ['0 <= fr1 <= 1 and 0 <= fr2 <= 1 and len(b1) <= 2 and len(b2) <= 1 and 0 <= cl_extra <= 2 and len(cuts) <= 2 and 0 <= conn_hdr <= 2'],
-           'thorough': ['0 <= fr1 <= 1 and 0 <= fr2 <= 1 and len(b1) <= 3 and len(b2) <= 2 and 0 <= cl_extra <= 3 and len(cuts) <= 3 and 0 <= conn_hdr <= 2']},
+      pre={'quick': ['0 <= fr1 <= 2 and 0 <= fr2 <= 1 and len(b1) <= 2 and len(b2) <= 1 and 0 <= cl_extra <= 2 and len(cuts) <= 2 and 0 <= conn_hdr <= 2'],
+           'thorough': ['0 <= fr1 <= 2 and 0 <= fr2 <= 1 and len(b1) <= 3 and len(b2) <= 2 and 0 <= cl_extra <= 3 and len(cuts) <= 3 and 0 <= conn_hdr <= 2']},
       parts=[{'tag': 'f%d%d_c%d_%s' % (a, b, c, 'h10' if h else 'h11'), 'fix': {'fr1': str(a), 'fr2': str(b), 'conn_hdr': str(c), 'http10': str(h)}}
-             for a in (0, 1) for b in (0, 1) for c in (0, 1, 2) for h in (False, True) if not (b == 1 and (c != 0 or h))],
+             for a in (0, 1, 2) for b in (0, 1) for c in (0, 1, 2) for h in (False, True) if not (b == 1 and (c != 0 or h))],
       timeout={'quick': 250, 'thorough': 1500}, samples=[(0, b'ab', 0, 1, b'c', [1], 0, False), (0, b'ab', 2, 0, b'', [], 0, False), (1, b'a', 0, 0, b'b', [], 1, False)],
       need=['second', 'closed'],
       funcs=['wpull/protocol/http/stream.py:Stream.read_body', 'wpull/protocol/http/util.py:should_close'],
-      doc='two exchanges in lock-step on one connection (Content-Length / chunked x keep-alive headers x HTTP/1.0|1.1): the first response '
+      doc='two exchanges in lock-step on one connection (Content-Length / chunked / bodyless 304 x keep-alive headers x HTTP/1.0|1.1): the first response '
           'consumes exactly its own bytes, the keep-alive decision equals RFC 7230 6.3, after an overrun or "close" the connection is closed, '
           'otherwise the second response (arriving only afterwards) is parsed from its first byte'),
+    H('ignore_length', '_ignore_length', 'framing: int, body: bytes, cl: int, ' + _CUTS,
+      pre={'quick': ['0 <= framing <= 2 and len(body) <= 2 and 0 <= cl <= 5 and len(cuts) <= 2'],
+           'thorough': ['0 <= framing <= 2 and len(body) <= 3 and 0 <= cl <= 9 and len(cuts) <= 3']},
+      parts=[{'tag': 'f%d' % f, 'fix': {'framing': str(f)}} for f in range(3)],
+      timeout={'quick': 200, 'thorough': 900}, samples=[(0, b'ab', 5, []), (1, b'ab', 0, [1]), (2, b'', 0, [])],
+      need=['f0', 'f1', 'f2'],
+      funcs=['wpull/protocol/http/stream.py:Stream.read_body', 'wpull/protocol/http/stream.py:Stream.get_read_strategy'],
+      doc='--ignore-length: a wrong Content-Length is replaced by read-until-close, but a chunked body is still de-chunked and a 304 '
+          'still has no body (the override applies to length framing only); the connection is closed afterwards'),
+    H('coded_then_plain', '_coded_then_plain', 'kind_i: int, p1: bytes, fr2: int, b2: bytes, ' + _CUTS,
+      pre={'quick': ['0 <= kind_i <= 2 and len(p1) <= 1 and 0 <= fr2 <= 1 and len(b2) <= 1 and len(cuts) <= 1'],
+           'thorough': ['0 <= kind_i <= 2 and len(p1) <= 2 and 0 <= fr2 <= 1 and len(b2) <= 3 and len(cuts) <= 3']},
+      parts=[{'tag': 'k%d_f%d' % (k, f), 'fix': {'kind_i': str(k), 'fr2': str(f)}} for k in range(3) for f in range(2)],
+      timeout={'quick': 250, 'thorough': 1200}, samples=[(0, b'a', 0, b'xy', []), (1, b'a', 1, b'x', [2])], need=['second-plain'],
+      funcs=['wpull/protocol/http/stream.py:Stream._setup_decompressor', 'wpull/protocol/http/stream.py:Stream.read_body'],
+      doc='a gzip / deflate coded response followed by an identity response on the same Stream (keep-alive): the decoder of the first '
+          'exchange is not applied to the second, whose symbolic body is delivered verbatim'),
     H('content_coding', '_content_coding', 'kind_i: int, payload: bytes, framing: int, ' + _CUTS,
       pre={'quick': ['0 <= kind_i <= 2 and len(payload) <= 1 and 0 <= framing <= 2 and len(cuts) <= 2'],
            'thorough': ['0 <= kind_i <= 2 and len(payload) <= 3 and 0 <= framing <= 2 and len(cuts) <= 3']},
